@@ -1,7 +1,8 @@
 //! Static analysis - compile time expression evaluation
 
-use crate::ir::pl::{Expr, ExprKind, Literal};
-use crate::Result;
+use crate::ir::decl::DeclKind;
+use crate::ir::pl::{Expr, ExprKind, InterpolateItem, Literal};
+use crate::{Error, Reason, Result, WithErrorInfo};
 
 impl super::Resolver<'_> {
     /// Tries to simplify this expression (and not child expressions) to a constant.
@@ -14,10 +15,71 @@ impl super::Resolver<'_> {
                 Expr { id, span, ..expr }
             }
 
-            ExprKind::Case(_) => static_eval_case(expr),
+            ExprKind::Case(items) => {
+                // branches that are removed here never reach lowering, which is where a module or
+                // a table variable in the place of a value is rejected: check before removing
+                for item in items {
+                    self.expect_value(&item.condition)?;
+                    self.expect_value(&item.value)?;
+                }
+                static_eval_case(expr)
+            }
 
             _ => expr,
         })
+    }
+}
+
+impl super::Resolver<'_> {
+    /// An identifier that resolved to a module or to a relation variable is not a value,
+    /// anywhere inside `expr` (only an s-string may splice a table name in).
+    fn expect_value(&self, expr: &Expr) -> Result<()> {
+        self.expect_value_in(expr, false)
+    }
+
+    fn expect_value_in(&self, expr: &Expr, in_interpolation: bool) -> Result<()> {
+        match &expr.kind {
+            ExprKind::Ident(ident) if expr.target_id.is_none() => {
+                if matches!(
+                    self.root_mod.module.get(ident).map(|d| &d.kind),
+                    Some(DeclKind::Module(_) | DeclKind::LayeredModules(_))
+                ) {
+                    return Err(Error::new(Reason::Expected {
+                        who: None,
+                        expected: "a value".to_string(),
+                        found: format!("module `{ident}`"),
+                    })
+                    .with_span(expr.span));
+                }
+                if !in_interpolation && expr.ty.as_ref().is_some_and(|t| t.is_relation()) {
+                    return Err(Error::new_simple(
+                        "table variable cannot be used as a scalar value",
+                    )
+                    .push_hint("use a join instead, or inline the subquery")
+                    .with_span(expr.span));
+                }
+            }
+            ExprKind::RqOperator { args, .. } | ExprKind::Tuple(args) | ExprKind::Array(args) => {
+                for arg in args {
+                    self.expect_value_in(arg, in_interpolation)?;
+                }
+            }
+            ExprKind::Case(items) => {
+                for item in items {
+                    self.expect_value_in(&item.condition, in_interpolation)?;
+                    self.expect_value_in(&item.value, in_interpolation)?;
+                }
+            }
+            ExprKind::SString(items) | ExprKind::FString(items) => {
+                for item in items {
+                    if let InterpolateItem::Expr { expr, .. } = item {
+                        self.expect_value_in(expr, true)?;
+                    }
+                }
+            }
+            _ => {}
+        }
+        Ok(())
     }
 }
 
